@@ -1317,11 +1317,12 @@ func (c *Checker) checkMethod(
 
 	checkedMethod.SetHasDefer(c.hasDefer())
 
-	c.setHasDefer(prevHasDefer)
 	c.returnType = prevReturnType
 	c.throwType = prevThrowType
 	c.mode = prevMode
 	c.flags = prevFlags
+	// the flags were saved after hasDefer had been cleared
+	c.setHasDefer(prevHasDefer)
 	c.catchScopes = prevCatchScopes
 	return typedReturnTypeNode, typedThrowTypeNode
 }
